@@ -36,13 +36,28 @@ typedef long elt;
 DEF_VARR (elt);
 
 static char evbuf[256];
-static void *h_malloc (size_t n, void *u) { return malloc (n); }
+/* checking allocator: fresh memory is filled with a poison pattern (never zero by luck), realloc
+   ALWAYS moves the block and poisons + frees the old one, so a pointer kept across an expansion
+   reads garbage deterministically (and trips ASan in the asan variant) */
+static void *h_malloc (size_t n, void *u) {
+  void *p = malloc (n ? n : 1);
+  if (p != NULL) memset (p, 0x5a, n);
+  return p;
+}
 static void *h_calloc (size_t k, size_t n, void *u) { return calloc (k, n); }
 static void *h_realloc (void *p, size_t old, size_t new, void *u) {
   char t[64];
   sprintf (t, " #r%zu,%zu", old / sizeof (elt), new / sizeof (elt));
   if (strlen (evbuf) + strlen (t) < sizeof (evbuf)) strcat (evbuf, t);
-  return realloc (p, new);
+  void *q = malloc (new ? new : 1);
+  if (q == NULL) return NULL;
+  memset (q, 0x5a, new);
+  if (p != NULL) {
+    memcpy (q, p, old < new ? old : new);
+    memset (p, 0xa5, old);
+    free (p);
+  }
+  return q;
 }
 static void h_free (void *p, void *u) { free (p); }
 static struct MIR_alloc h_alloc = {h_malloc, h_calloc, h_realloc, h_free, NULL};
